@@ -459,9 +459,10 @@ func decodeWatched(s *spec, wire []byte) (d value.Value, p interface{}) {
 	return
 }
 
-// firstUnequalLeaf walks a value and its decoded copy side by side and names the type of the
-// first node pair that is not Equals ("" when the walk finds none).
-func firstUnequalLeaf(s *spec, a, b value.Value) (where string) {
+// firstUnequalLeaf walks a value and its decoded copy side by side and returns the description
+// of the first node pair that is not Equals (nil when the walk finds none; the container
+// itself when its size is not the described one).
+func firstUnequalLeaf(s *spec, a, b value.Value) (where *spec) {
 	vlib.Catch(func() {
 		if a == nil || b == nil || a.GetValueType() != s.code || b.GetValueType() != s.code {
 			return
@@ -470,11 +471,11 @@ func firstUnequalLeaf(s *spec, a, b value.Value) (where string) {
 		case cList:
 			x, y := a.(*value.ListValue), b.(*value.ListValue)
 			if x.Size() != len(s.items) || y.Size() != len(s.items) {
-				where = tn(s)
+				where = s
 				return
 			}
 			for i, e := range s.items {
-				if w := firstUnequalLeaf(e, x.Get(i), y.Get(i)); w != "" {
+				if w := firstUnequalLeaf(e, x.Get(i), y.Get(i)); w != nil {
 					where = w
 					return
 				}
@@ -482,7 +483,7 @@ func firstUnequalLeaf(s *spec, a, b value.Value) (where string) {
 		case cMap:
 			x, y := a.(*value.MapValue), b.(*value.MapValue)
 			for i, e := range s.items {
-				if w := firstUnequalLeaf(e, x.Get(s.keys[i]), y.Get(s.keys[i])); w != "" {
+				if w := firstUnequalLeaf(e, x.Get(s.keys[i]), y.Get(s.keys[i])); w != nil {
 					where = w
 					return
 				}
@@ -490,18 +491,49 @@ func firstUnequalLeaf(s *spec, a, b value.Value) (where string) {
 		case cIntMap:
 			x, y := a.(*value.IntMapValue), b.(*value.IntMapValue)
 			for i, e := range s.items {
-				if w := firstUnequalLeaf(e, x.Get(s.ikeys[i]), y.Get(s.ikeys[i])); w != "" {
+				if w := firstUnequalLeaf(e, x.Get(s.ikeys[i]), y.Get(s.ikeys[i])); w != nil {
 					where = w
 					return
 				}
 			}
 		default:
 			if e, p := eq(a, b); p == nil && !e {
-				where = tn(s)
+				where = s
 			}
 		}
 	})
 	return
+}
+
+// nameDecodedFailure names shape and type part of a failing decoded-copy law on a container:
+// the irregular shape that arises AT the first element that is not Equals to its copy (a NaN
+// there, a nil payload there, one of several different payloads of its type); when that
+// element is regular, the container's own classification stands.
+func nameDecodedFailure(s *spec, a, d value.Value, sh, types string) (string, string) {
+	if !isContainer(s.code) {
+		return sh, types
+	}
+	lf := firstUnequalLeaf(s, a, d)
+	if lf == nil || isContainer(lf.code) {
+		return sh, types
+	}
+	t := tn(lf) + "×" + tn(lf)
+	switch {
+	case hasNaN(lf):
+		return shNaN, t
+	case lf.nilp:
+		return shNilEmpty, t
+	}
+	for _, code := range mixedTypes(s) {
+		if code == lf.code {
+			return shMixed, t
+		}
+	}
+	if sh == shNaN || sh == shNilEmpty {
+		// the NaN / nil payload is elsewhere in the container, not where the copy differs
+		return shPlain, tn(s) + "×" + tn(s)
+	}
+	return sh, types
 }
 
 // ---- mixed containers ----------------------------------------------------------------------
@@ -728,9 +760,9 @@ func (m *mon) recheckHeld(hs []held) {
 			continue // totality is judged where the pair is first compared
 		}
 		if e0 != h.e0 || e1 != h.e1 {
-			where := firstUnequalLeaf(h.orig.s, h.orig.v, h.dec.v)
-			if where == "" {
-				where = tn(h.orig.s)
+			where := tn(h.orig.s)
+			if lf := firstUnequalLeaf(h.orig.s, h.orig.v, h.dec.v); lf != nil {
+				where = tn(lf)
 			}
 			law := "result-changed-by-unrelated-call"
 			if h.e0 && h.e1 {
